@@ -394,6 +394,55 @@ theorem pure_keys_distinct (fn fn' ft ft' : String) (args args' : List Val)
     Val.tuple.injEq, List.cons.injEq, Val.str.injEq] at h
   exact ⟨h.1, h.2.1, C12.normL_injective _ _ h.2.2⟩
 
+open Dask.NF in
+/-- the item a keyword argument contributes to the token -/
+def kwItem (p : String × Val) : Val := .tuple [.str "tuple", .tuple [.str p.1, norm p.2]]
+
+open Dask.NF in
+theorem kwItems_eq (kw : List (String × Val)) :
+    (ssort (kw.map (fun (k, v) => (((k, "") : SortKey), Val.tuple [.str "tuple", .tuple [.str k, norm v]])))).map Prod.snd
+      = (ssort (kw.map (fun p => (((p.1, "") : SortKey), kwItem p)))).map Prod.snd := by
+  rfl
+
+open Dask.NF in
+/-- **pure calls with the same key have observably equal positional arguments and, keyword by keyword, observably equal
+    keyword arguments** (in whatever order the keywords were written) -/
+theorem pure_keys_distinct_kw (fn fn' ft ft' : String) (args args' : List Val) (kw kw' : List (String × Val))
+    (h : pureKey fn ft args kw = pureKey fn' ft' args' kw') :
+    fn = fn' ∧ ft = ft' ∧ ObsEqL args args' ∧
+      ∃ kw'', All₂ (fun p q : String × Val => p.1 = q.1 ∧ ObsEq p.2 q.2) kw kw'' ∧ kw''.Perm kw' := by
+  simp only [pureKey, Prod.mk.injEq, Val.digest.injEq] at h
+  obtain ⟨hfn, hnf⟩ := h
+  refine ⟨hfn, ?_⟩
+  unfold tokNFKw at hnf
+  cases kw with
+  | nil =>
+    cases kw' with
+    | nil =>
+      simp only [List.isEmpty_nil, if_true, normL, norm, Val.tuple.injEq, List.cons.injEq, Val.str.injEq] at hnf
+      exact ⟨hnf.1, C12.normL_injective _ _ hnf.2, [], .nil, .refl _⟩
+    | cons p r =>
+      simp [normL, norm] at hnf
+  | cons p r =>
+    cases kw' with
+    | nil => simp [normL, norm] at hnf
+    | cons p' r' =>
+      simp only [List.isEmpty_cons, Bool.false_eq_true, if_false, Val.tuple.injEq, List.cons.injEq, and_true] at hnf
+      obtain ⟨hargs, hitems⟩ := hnf
+      simp only [normL, norm, List.cons.injEq, Val.str.injEq] at hargs
+      refine ⟨hargs.1, C12.normL_injective _ _ hargs.2, ?_⟩
+      rw [kwItems_eq, kwItems_eq] at hitems
+      have hperm := C12.perm_of_ssort_eq hitems
+      simp only [List.map_map] at hperm
+      have hperm' : ((p :: r).map kwItem).Perm ((p' :: r').map kwItem) := by
+        simpa [Function.comp_def] using hperm
+      obtain ⟨zs, hz, hzp⟩ := perm_map_rel kwItem (fun a b : String × Val => a.1 = b.1 ∧ ObsEq a.2 b.2) (p :: r) (p' :: r') hperm'
+        (by
+          intro a _ b hab
+          simp only [kwItem, Val.tuple.injEq, List.cons.injEq, Val.str.injEq, and_true, true_and] at hab
+          exact ⟨hab.1, C12.norm_injective _ _ hab.2⟩)
+      exact ⟨zs, hz, hzp⟩
+
 /-! ## non-vacuity: `total = add(inc(x), inc(x))` with a shared pure sub-call, and `f([inc(x), {1: y}])` -/
 
 def arith : Sem Nat where
